@@ -97,6 +97,60 @@ func corpus() []corpusCase {
 		corpusCase{name: "L11-twice-evict-failure", wf: true, c: twice(), fails: map[int]bool{0: true},
 			cmds: []cmdSpec{ev("a-0"), un("a-0"), ev("a-0"), un("a-0"), ev("a-0"), ev("f-0"), commit}},
 	)
+	// Evict applied to a pod that is already Releasing (Statement.Evict leaves it alone since 83a0ca3 + bce7109): the pod
+	// evicted twice / three times by one statement, with a checkpoint and a rollback around the second Evict,
+	// followed by Unevict / Pipeline onto its own node / Discard / Commit (also with a failing Cache.Evict), and a pod
+	// that is terminating in the snapshot. Each pod must be evicted at most once by the Commit, nothing must be
+	// emitted for the ignored or the undone steps, and Rollback / Discard must give back the dumps.
+	for _, v := range []struct {
+		name string
+		pod  string
+		back cmdSpec
+	}{
+		{"whole", "a-0", back("a-0", "n1")},
+		{"fraction", "f-0", back("f-0", "n1", "n1-G1")},
+	} {
+		again = append(again,
+			corpusCase{name: "D1-evict-twice-commit-" + v.name, wf: true, c: twice(), cmds: []cmdSpec{ev(v.pod), ev(v.pod), commit}},
+			corpusCase{name: "D2-evict-checkpoint-evict-rollback-commit-" + v.name, wf: true, c: twice(),
+				cmds: []cmdSpec{ev(v.pod), cp, ev(v.pod), rb(1), commit}},
+			corpusCase{name: "D3-evict-twice-unevict-commit-" + v.name, wf: true, c: twice(), cmds: []cmdSpec{ev(v.pod), ev(v.pod), un(v.pod), commit}},
+			corpusCase{name: "D4-evict-twice-discard-" + v.name, wf: true, c: twice(), cmds: []cmdSpec{ev(v.pod), ev(v.pod), discard}},
+			corpusCase{name: "D5-evict-twice-pipeline-own-node-commit-" + v.name, wf: true, c: twice(),
+				cmds: []cmdSpec{ev(v.pod), ev(v.pod), v.back, commit}},
+			corpusCase{name: "D6-evict-thrice-unevict-evict-twice-commit-" + v.name, wf: true, c: twice(),
+				cmds: []cmdSpec{ev(v.pod), ev(v.pod), ev(v.pod), un(v.pod), ev(v.pod), ev(v.pod), commit}},
+			corpusCase{name: "D7-evict-twice-evict-failure-" + v.name, wf: true, c: twice(), fails: map[int]bool{0: true},
+				cmds: []cmdSpec{ev(v.pod), ev(v.pod), ev("h-0"), ev("h-0"), commit}},
+			corpusCase{name: "D8-evict-twice-inside-rolled-back-checkpoint-" + v.name, wf: true, c: twice(),
+				cmds: []cmdSpec{cp, ev(v.pod), ev(v.pod), back("c-0", "n2"), ev(v.pod), rb(1), ev(v.pod), ev(v.pod), commit}},
+			corpusCase{name: "D9-evict-commit-evict-again-commit-" + v.name, wf: true, c: twice(),
+				cmds: []cmdSpec{ev(v.pod), commit, ev(v.pod), ev("h-0"), ev(v.pod), commit}},
+		)
+	}
+	terminating := func() cycle.Cluster {
+		return base(n1, job1("a", whole(run, "n1", 1)), job1("b", whole(rel, "n1", 1)), job1("t", frac(rel, "n1", "n1-G1")), job1("f", frac(run, "n1", "n1-G1")))
+	}
+	again = append(again,
+		corpusCase{name: "D10-evict-terminating-commit", wf: true, c: terminating(), cmds: []cmdSpec{ev("b-0"), ev("t-0"), commit}},
+		corpusCase{name: "D11-evict-terminating-among-evictions-rollback-commit", wf: true, c: terminating(),
+			cmds: []cmdSpec{ev("b-0"), cp, ev("a-0"), ev("t-0"), ev("a-0"), ev("f-0"), rb(1), ev("t-0"), ev("f-0"), ev("b-0"), commit}},
+		corpusCase{name: "D12-evict-terminating-discard", wf: true, c: terminating(), cmds: []cmdSpec{ev("t-0"), ev("a-0"), ev("b-0"), ev("a-0"), discard}},
+	)
+	// The second Evict is handed another PodInfo object of the same pod, whose Status is still Running: the scenario
+	// solvers keep their own copies of the victims (RecordedVictimsTasks / potentialVictimsTasks), taken before the
+	// earlier evictions of the statement. Statement.Evict has to look at the session's own object.
+	stale := func(p string) cmdSpec { return cmdSpec{Kind: "evict", Pod: p, Stale: true} }
+	again = append(again,
+		corpusCase{name: "S1-evict-then-evict-stale-copy-commit", wf: true, c: twice(), cmds: []cmdSpec{ev("a-0"), stale("a-0"), commit}},
+		corpusCase{name: "S2-evict-then-evict-stale-copy-rollback-commit", wf: true, c: twice(),
+			cmds: []cmdSpec{ev("f-0"), cp, stale("f-0"), ev("a-0"), rb(1), commit}},
+		corpusCase{name: "S3-evict-then-evict-stale-copy-discard", wf: true, c: twice(), cmds: []cmdSpec{ev("a-0"), stale("a-0"), discard}},
+		corpusCase{name: "S4-evict-stale-copies-unevict-commit", wf: true, c: twice(),
+			cmds: []cmdSpec{ev("f-0"), ev("h-0"), stale("f-0"), stale("h-0"), stale("f-0"), un("f-0"), commit}},
+		corpusCase{name: "S5-evict-commit-evict-stale-copy-commit", wf: true, c: twice(),
+			cmds: []cmdSpec{ev("a-0"), commit, stale("a-0"), ev("f-0"), stale("a-0"), commit}},
+	)
 	return append(again, []corpusCase{
 		{name: "W1-device-guard", wf: true,
 			c: base(n1, job1("a", frac(run, "n1", "n1-G1")), job1("b", whole(rel, "n1", 1)), job1("c", whole(run, "n1", 1)), job1("d", whole(pend, "", 2))),
@@ -106,7 +160,7 @@ func corpus() []corpusCase {
 			c: base(n1, job1("a", frac(pend, ""))),
 			cmds: []cmdSpec{{Kind: "checkpoint"}, {Kind: "pipeline", Pod: "a-0", Node: "n1", HasGroups: true, Groups: []string{"x1"}},
 				{Kind: "rollback", Cp: -1}}},
-		{name: "W3-double-evict", wf: false,
+		{name: "W3-evict-twice", wf: true,
 			c:    base(n1, job1("a", whole(run, "n1", 1))),
 			cmds: []cmdSpec{{Kind: "evict", Pod: "a-0"}, {Kind: "evict", Pod: "a-0"}, {Kind: "commit"}}},
 		{name: "W4-same-node-gpu-move", wf: true,
